@@ -16,7 +16,7 @@ for d in sorted(glob.glob(os.path.join(HERE, "seeded", "*"))):
             c = v["violation_classes"][0]
             cls = c.split(" count=")[0].replace("class=", "")
             break
-    rows.append((os.path.basename(d), ", ".join(f.replace("py34/bacpypes/", "") for f in files), ", ".join(m["caught_by"]) or "**missed**", cls, m.get("summary", "")))
+    rows.append((os.path.basename(d), ", ".join(f.replace("py34/bacpypes/", "") for f in files), ", ".join(m["caught_by"]) or ("withdrawn" if str(m.get("status", "")).startswith("withdrawn") else "**missed**"), cls, m.get("summary", "")))
 print("| mutant | file | caught by | violation class reported | what it is |")
 print("|---|---|---|---|---|")
 for r in rows:
